@@ -402,12 +402,41 @@ Definition o_at_return : bool :=
 Definition s_at_return : Prop :=
   forall r c i, In (r, EOpen c i) ob -> sub_accepted i = false.
 
+(* 10. nothing is lost, also after back-pressure: in a script without Close, if at its end no
+       back-pressure is possible any more, then every subscriber that never left, whose consumer
+       reads and whose Subscribe had returned before a Batch call that is the LAST one of its key and
+       whose interval has elapsed by the end, has received that value (at some step). *)
+Definition last_of_key (b : Z * Z) : bool :=
+  negb (existsb (fun b' => (fst b <? fst b') && (snd b' =? snd b)) batches).
+Definition final_step : Z := nsteps - 1.
+Definition eventual_active : bool :=
+  match close_step with
+  | None => if 0 <? nsteps then negb (may_block final_step) else false
+  | Some _ => false
+  end.
+Definition owed (q : Z) (b : Z * Z) : bool :=
+  if q <? fst b then if last_of_key b then due (fst b) <=? time_after final_step else false else false.
+Definition o_eventual : bool :=
+  if eventual_active then
+    forallb (fun e : Z * (Z * bool) =>
+       match cancel_step (fst e), reader_start e, done_step (fst (snd e)) with
+       | None, Some _, Some q =>
+           forallb (fun b => if owed q b then memZ (fst b) (vals (fst e)) else true) batches
+       | _, _, _ => true
+       end) isubs
+  else true.
+Definition s_eventual : Prop :=
+  eventual_active = true ->
+  forall e, In e isubs -> cancel_step (fst e) = None ->
+    forall y q, reader_start e = Some y -> done_step (fst (snd e)) = Some q ->
+      forall b, In b batches -> owed q b = true -> In (fst b) (vals (fst e)).
+
 Definition oracle : bool :=
   o_valid && o_once && o_not_early && o_suppress && o_due_order && o_same_order && o_no_hole
-  && o_no_wedge && o_complete && o_close && o_depart && o_at_return.
+  && o_no_wedge && o_complete && o_close && o_depart && o_at_return && o_eventual.
 
 Definition spec : Prop :=
   s_valid /\ s_once /\ s_not_early /\ s_suppress /\ s_due_order /\ s_same_order /\ s_no_hole
-  /\ s_no_wedge /\ s_complete /\ s_close /\ s_depart /\ s_at_return.
+  /\ s_no_wedge /\ s_complete /\ s_close /\ s_depart /\ s_at_return /\ s_eventual.
 
 End Spec.
